@@ -31,6 +31,7 @@ EPOCH = datetime.date(1970, 1, 1)
 
 class DateRec:
     """A datetime.date: day number relative to 1970-01-01 (z3 Int term or Python int)."""
+    ALWAYS_TRUE = True        # a Python object of this kind is truthy (no __bool__ / __len__)
     def __init__(self, days):
         self.days = days
 
